@@ -133,11 +133,11 @@ Theorem redeem_ok_facts cfg s auth code redirect v vh :
   exists k r cl, redeem_facts cfg s auth code redirect v vh k r cl /\
     let res := redeem cfg s auth code redirect v vh in
     o_scopes (snd res) = r_gscopes r /\
-    o_expires_in (snd res) = expires_in (set_token_expiries cfg (now s) (r_sess r)) cfg (now s) /\
-    (exists ka, access (st (fst res)) ka = Some (minted_record cfg s r cl)) /\
+    o_expires_in (snd res) = expires_in (set_token_expiries (eff_cfg cfg cl LAuthCode) (now s) (r_sess r)) cfg (now s) /\
+    (exists ka, access (st (fst res)) ka = Some (minted_record (eff_cfg cfg cl LAuthCode) s r cl)) /\
     (In KRefresh (o_minted (snd res)) ->
        can_refresh cfg (r_gscopes r) (r_cl r) = true /\
-       exists kr, refresh (st (fst res)) kr = Some (true, minted_record cfg s r cl)).
+       exists kr, refresh (st (fst res)) kr = Some (true, minted_record (eff_cfg cfg cl LAuthCode) s r cl)).
 Proof.
   unfold redeem.
   destruct auth as [c|]; [|discriminate].
@@ -165,7 +165,7 @@ Proof.
     + match goal with |- context [grant_tokens ?s2 ?stored ?w] =>
         pose proof (grant_tokens_records s2 stored w) as G; destruct (grant_tokens s2 stored w) as [s3 minted] end.
       cbn [fst snd] in *. destruct G as [ka [Ha [_ [_ [Hr Hm]]]]].
-      assert (Hrec : forall x, x = minted_record cfg s r cl -> True) by trivial.
+      assert (Hrec : forall x, x = minted_record (eff_cfg cfg cl LAuthCode) s r cl -> True) by trivial.
       unfold minted_record. rewrite Hc. cbn.
       repeat split; try reflexivity.
       * exists ka. exact Ha.
@@ -244,8 +244,8 @@ Theorem refresh_ok_facts cfg s auth tok :
     (match cf_refresh_scopes cfg with [] => true | sc => args_has_one_of (r_gscopes r) sc end) = true /\
     let res := refresh_flow cfg s auth tok in
     o_scopes (snd res) = r_gscopes r /\
-    (exists ka, access (st (fst res)) ka = Some (minted_record cfg s r cl)) /\
-    (exists kr, refresh (st (fst res)) kr = Some (true, minted_record cfg s r cl)).
+    (exists ka, access (st (fst res)) ka = Some (minted_record (eff_cfg cfg cl LRefresh) s r cl)) /\
+    (exists kr, refresh (st (fst res)) kr = Some (true, minted_record (eff_cfg cfg cl LRefresh) s r cl)).
 Proof.
   unfold refresh_flow.
   destruct auth as [c|]; [|discriminate].
